@@ -101,6 +101,25 @@ CATCH = {
  "C18-r5": (["C18"], ["C18|touching-tx-missing","C18|wire|touching-tx-outputs-differ"], True, ""),
  "C19-r5": (["C19"], ["C19|built-tx|does-not-validate|spend","C19|built-tx|does-not-validate|spend-all","C19|built-tx|does-not-validate|spend-multi"], False, "C19: reorganisations of depth 1..prune depth+2 with prune depth 1/2/3/8 (unwinding blocks whose bodies were dropped)"),
  "C20-r5": (["C20"], ["C20|order|peers-held-then-blockchain|routing_thread.rs<-routing_thread.rs"], True, ""),
+ "C01-r6": (["C04","C01"], ["C04|trace-left|index","C04|trace-left|spendable-set","C01|spendable-set-changed-by-rejected-block|block-fork-late"], False, "caught by C04 as found; C01: entry path block-fork-late (hostile block is the second block of the candidate chain) + spendable set unchanged by a rejected block"),
+ "C02-r6": (["C02"], ["C02|panic|blockchain.rs:cannot_continue_with_invalid_total_supply"], True, ""),
+ "C03-r6": (["C03"], ["C03|index|wrong-below-window"], False, "C03: long-chain family (genesis period 3..6, chain 1-3 times the block ring, index judged for every id)"),
+ "C04-r6": (["C04"], ["C04|trace-left|tip"], True, ""),
+ "C05-r6": (["C04","C03"], ["C04|trace-left|ring-entries","C03|panic|blockchain.rs:called_Option_unwrap_on_None_value"], False, "C04: every (id, hash) entry of the block ring is part of the before/after snapshot; C03 long-chain family: an invalid block is refused before the ring wraps over its slot"),
+ "C06-r6": (["C06"], ["C06|accepted-under-same-hash|replace-tx-equal-fee","C06|accepted-under-same-hash|swap-two-txs"], True, ""),
+ "C07-r6": (["C07"], ["C07|producer-refused-own-block|network|other"], True, ""),
+ "C08-r6": (["C08"], ["C08|payout|ineligible-recipient"], False, "C08: the honest block's ticket is solved by one key and carried by a golden-ticket transaction signed by another"),
+ "C09-r6": (["C09"], ["C09|re-encode-differs|block"], False, "C09: every numeric header field gets its own random value"),
+ "C10-r6": (["C10"], ["C10|panic|decoder|msg|peer_service.rs:index_out_of_bounds_the_len","C10|panic|handler|msg|routing.process_network_event|peer_service.rs:index_out_of_bounds_the_len"], True, ""),
+ "C11-r6": (["C11"], ["C11|panic|hostile-block-id-zero|consensus.process_event|block.rs:assertion_failed_self_id","C11|panic|restart|on_init|block.rs:assertion_failed_self_id"], False, "C11: node with an empty chain (one run in eight), id-0 block announced under its own id, final restart from the node's disk"),
+ "C12-r6": (["C12"], ["C12|restart-after-reorganisation|tip-differs"], False, "C12: after a clean restart the stored side branch overtakes the main chain, then another clean restart"),
+ "C13-r6": (["C13","C12"], ["C13|panic|blockchain.rs:cannot_continue_with_invalid_total_supply","C12|clean-restart|tip-differs"], True, ""),
+ "C14-r6": (["C14"], ["C14|pool|invalid-tx-after|own-invalid"], False, "C14: op own-invalid (a refused block under the node's own key; its transactions are handed back to the pool) - which first exposed the unreserved hand-back fixed in 3fb9d58"),
+ "C16-r6": (["C16"], ["C16|announced-block-never-requested"], False, "C16: op request-only (the consensus processor's request for a missing parent without any announcement)"),
+ "C17-r6": (["C17"], ["C17|key-index-names-peer-of-another-key"], False, "C17: invariant on address_to_peers after every delivery"),
+ "C18-r6": (["C18"], ["C18|header-differs|body-less-source"], False, "C18: projection of the block after its transactions were pruned from memory"),
+ "C19-r6": (["C19"], ["C19|balance-differs-from-unspent-sum|stake"], False, "C19: staking family at the wallet's interface"),
+ "C20-r6": (["C20"], ["C20|order|wallet-held-then-peers|network.rs<-network.rs","C20|deadlock|consensus:blockchain+config+mempool+wallet>peers|routing:config+peers>wallet"], True, ""),
  "C20": (["C20"], ["C20|order|wallet-held-then-blockchain|verification_thread.rs<-verification_thread.rs","C20|deadlock|consensus:blockchain+config>wallet|verification:wallet>blockchain"], True, ""),
 }
 extra = {}
